@@ -54,11 +54,19 @@ def correspondence(ctx):
                 band = None
                 deriv = None
                 kw = {}
-                if rng.uniform() < 0.6:
-                    lo = int(rng.integers(0, N // 2 + 1))
+                bm = int(rng.integers(0, 5))    # none / both / low only / high only / low = 0 only
+                if bm in (1, 2, 3, 4):
+                    lo = int(rng.integers(0, N // 2 + 1)) if bm != 4 else 0
                     hi = int(rng.integers(lo, N // 2 + 2))
-                    band = (lo, hi)
-                    kw.update(low=lo, high=hi)
+                    if bm == 1:
+                        band = (lo, hi)
+                        kw.update(low=lo, high=hi)
+                    elif bm in (2, 4):           # documented default of the missing upper limit: everything up to Nyquist
+                        band = (lo, N // 2 + 1)
+                        kw.update(low=lo)
+                    else:                         # documented default of the missing lower limit: 0
+                        band = (0, hi)
+                        kw.update(high=hi)
                 if rng.uniform() < 0.5:
                     deriv = float(rng.integers(1, 3))
                     kw.update(derivative_order=deriv)
@@ -105,6 +113,15 @@ def probe_consistency(D, N, seed):
         tot += float(M.fourier_MSE(ju, jr, domain_extent=L, low=a if a == 0 else a, high=b - 1 if b != cuts[-1] else b))
     # bands are [low, high] inclusive: [0,c1-1], [c1, c2-1], ..., [ck, N//2+1]
     res["band_add"] = abs(tot - float(M.fourier_MSE(ju, jr, domain_extent=L)))
+    # one-sided bands: a missing limit means "no limit on that side"
+    full = float(M.fourier_MSE(ju, jr, domain_extent=L))
+    res["band_low0_only"] = abs(float(M.fourier_MSE(ju, jr, domain_extent=L, low=0)) - full)
+    res["band_high_max_only"] = abs(float(M.fourier_MSE(ju, jr, domain_extent=L, high=N // 2 + 1)) - full)
+    kcut = max(1, N // 4)
+    res["band_one_sided_split"] = abs(float(M.fourier_MSE(ju, jr, domain_extent=L, high=kcut))
+                                      + float(M.fourier_MSE(ju, jr, domain_extent=L, low=kcut + 1)) - full)
+    res["band_one_sided_split_H1"] = abs(float(M.H1_MSE(ju, jr, domain_extent=L, high=kcut))
+                                         + float(M.H1_MSE(ju, jr, domain_extent=L, low=kcut + 1)) - float(M.H1_MSE(ju, jr, domain_extent=L)))
     # axioms
     res["zero"] = abs(float(M.MSE(ju, ju)))
     res["symmetric"] = abs(float(M.MSE(ju, jr)) - float(M.MSE(jr, ju))) + abs(float(M.sMAE(ju, jr)) - float(M.sMAE(jr, ju)))
